@@ -353,11 +353,13 @@ def match_known(known, v):
             elif isinstance(want, dict) and 'prefix' in want:
                 if not (isinstance(have, str) and have.startswith(want['prefix'])):
                     ok = False
-            elif isinstance(want, dict) and 'lt' in want:
-                if not (isinstance(have, (int, float)) and have < want['lt']):
+            elif isinstance(want, dict) and ('lt' in want or 'ge' in want):
+                # both bounds may be given: ge <= have < lt
+                if not isinstance(have, (int, float)):
                     ok = False
-            elif isinstance(want, dict) and 'ge' in want:
-                if not (isinstance(have, (int, float)) and have >= want['ge']):
+                elif 'lt' in want and not have < want['lt']:
+                    ok = False
+                elif 'ge' in want and not have >= want['ge']:
                     ok = False
             elif isinstance(want, dict) and 'ne' in want:
                 if have == want['ne']:
